@@ -512,6 +512,157 @@ def replay_host_header(args: dict[str, typing.Any]) -> bool:
 
 
 # ---------------------------------------------------------------------------
+# K5: HTTP/2 stream-permit arithmetic on a SETTINGS change (C12)
+# ---------------------------------------------------------------------------
+
+PERMIT_BOUND = 6
+
+
+def k_h2_permits(flavour: str) -> list[Result]:
+    import importlib
+
+    import h2.settings
+
+    mod = importlib.import_module(f"httpcore.{'_async' if flavour == 'async' else '_sync'}.http2")
+    cls = getattr(mod, "AsyncHTTP2Connection" if flavour == "async" else "HTTP2Connection")
+    fns = {k: v for k, v in functions_of(cls).items() if k == "_receive_remote_settings_change"}
+    name = f"{cls.__name__}._receive_remote_settings_change"
+    M0, V0, X, L = z3.Int("max_streams"), z3.Int("permits"), z3.Int("new_value"), z3.Int("local_max")
+    HAS = z3.Bool("setting_present")
+    B = PERMIT_BOUND
+
+    def env(it: Interp, fn: str, args: list, kwargs: dict) -> typing.Any:
+        st = it.path.notes  # per-path scratch: [current permits expr, blocked flag exprs]
+        if fn.endswith("changed_settings.get"):
+            it.path.calls.append((fn, tuple(args), kwargs))
+            return Opt(z3.Not(HAS), Obj(new_value=X))
+        if fn.startswith("attr:") and fn.endswith("max_concurrent_streams"):
+            return L
+        if fn.endswith("_max_streams_semaphore.release"):
+            it.path.calls.append(("release", (), {}))
+            return None
+        if fn.endswith("_max_streams_semaphore.acquire"):
+            it.path.calls.append(("acquire", (), {}))
+            return None
+        raise Unsupported(f"environment call {fn}")
+
+    def mk() -> dict[str, typing.Any]:
+        return {"self": Obj(_max_streams=M0, _max_streams_semaphore=Obj(), _h2_state=Obj(local_settings=Obj())),
+                "event": Obj(changed_settings=Obj())}
+
+    assume = [M0 >= 1, M0 <= B, V0 >= 0, V0 <= M0, X >= 0, X <= B, L == 100]
+    try:
+        it = Interp(fns, env, unwind=B + 1, max_paths=200,
+                    globals_={"h2": I._Namespace(settings=I._Namespace(SettingCodes=I._Namespace(MAX_CONCURRENT_STREAMS="MCS")))})
+        paths = it.explore("_receive_remote_settings_change", mk, assume)
+    except (Unsupported, UnwindingExceeded) as e:
+        return [Result(name, "permit arithmetic", "unsupported", str(e))]
+
+    def walk(p: I.Path) -> tuple[typing.Any, list[typing.Any]]:
+        v: typing.Any = V0
+        nonblocking = []
+        for c in p.calls:
+            if c[0] == "release":
+                v = v + 1
+            elif c[0] == "acquire":
+                nonblocking.append(v > 0)
+                v = v - 1
+        return v, nonblocking
+
+    def prop_limit(p: I.Path) -> typing.Any:
+        if p.raised is not None:
+            return False
+        m1 = p.locals["self"].attrs["_max_streams"]
+        effective = z3.And(HAS, X != 0)
+        return z3.If(effective, m1 == X, m1 == M0)
+
+    def prop_conserve(p: I.Path) -> typing.Any:
+        v1, _nb = walk(p)
+        m1 = p.locals["self"].attrs["_max_streams"]
+        return (v1 - V0) == (m1 - M0)
+
+    def prop_noblock(p: I.Path) -> typing.Any:
+        _v1, nb = walk(p)
+        in_flight = M0 - V0
+        target = z3.If(z3.And(HAS, X != 0), X, M0)
+        return z3.Implies(in_flight <= target, z3.And(*nb) if nb else z3.BoolVal(True))
+
+    def cex(m: z3.ModelRef, p: I.Path) -> dict[str, typing.Any]:
+        g = lambda e: m.eval(e, model_completion=True)  # noqa: E731
+        return {"max_streams": g(M0).as_long(), "permits": g(V0).as_long(), "present": z3.is_true(g(HAS)),
+                "new_value": g(X).as_long()}
+
+    out = [
+        _discharge(it, name, f"afterwards the stream limit equals the advertised value (unchanged if the SETTINGS frame does not carry a non-zero MAX_CONCURRENT_STREAMS); limits 1..{B}",
+                   paths, prop_limit, assume, cex),
+        _discharge(it, name, "permits are conserved: permits - limit is invariant (= -streams in flight)", paths, prop_conserve, assume, cex),
+        _discharge(it, name, "if the streams in flight do not exceed the new limit the reader never has to block on the semaphore",
+                   paths, prop_noblock, assume, cex),
+    ]
+    return out
+
+
+def replay_h2_permits(flavour: str, args: dict[str, typing.Any]) -> bool:
+    import importlib
+
+    import h2.settings
+
+    from .. import vrt
+
+    mod = importlib.import_module(f"httpcore.{'_async' if flavour == 'async' else '_sync'}.http2")
+    cls = getattr(mod, "AsyncHTTP2Connection" if flavour == "async" else "HTTP2Connection")
+    m0, v0, present, x = args["max_streams"], args["permits"], args["present"], args["new_value"]
+    state = {"v": v0, "blocked": False}
+
+    class Sem:
+        if flavour == "async":
+            async def release(self) -> None:
+                state["v"] += 1
+
+            async def acquire(self) -> None:
+                if state["v"] <= 0:
+                    state["blocked"] = True
+                state["v"] -= 1
+        else:
+            def release(self) -> None:  # type: ignore[misc]
+                state["v"] += 1
+
+            def acquire(self) -> None:  # type: ignore[misc]
+                if state["v"] <= 0:
+                    state["blocked"] = True
+                state["v"] -= 1
+
+    class NV:
+        new_value = x
+
+    class Ev:
+        changed_settings = {h2.settings.SettingCodes.MAX_CONCURRENT_STREAMS: NV()} if present else {}
+
+    class LS:
+        max_concurrent_streams = 100
+
+    class H2:
+        local_settings = LS()
+
+    conn = cls.__new__(cls)
+    conn._max_streams, conn._max_streams_semaphore, conn._h2_state = m0, Sem(), H2()
+    try:
+        if flavour == "async":
+            vrt.new_runtime()
+            vrt.run_single(conn._receive_remote_settings_change(Ev()))
+        else:
+            conn._receive_remote_settings_change(Ev())
+    except Exception:
+        return True
+    want = x if (present and x != 0) else m0
+    in_flight = m0 - v0
+    bad = conn._max_streams != want or (state["v"] - v0) != (conn._max_streams - m0)
+    if in_flight <= want and state["blocked"]:
+        bad = True
+    return bad
+
+
+# ---------------------------------------------------------------------------
 # differential validation of the interpreter on concrete vectors
 # ---------------------------------------------------------------------------
 
